@@ -10,22 +10,31 @@ import (
 )
 
 var (
-	reRightPct   = regexp.MustCompile(`(?i)right[\s]+(/\*.*?\*/\s*)?[-+]?[0-9.]+(e[-+]?[0-9]+)?%`)
-	reBottomPct  = regexp.MustCompile(`(?i)bottom[\s]+(/\*.*?\*/\s*)?[-+]?[0-9.]+(e[-+]?[0-9]+)?%`)
-	reFarFracPct = regexp.MustCompile(`(?i)(right|bottom)[\s]+(/\*.*?\*/\s*)?[-+]?[0-9]*\.[0-9]*[1-9][0-9]*(e[-+]?[0-9]+)?%`)
-	reFarExpPct  = regexp.MustCompile(`(?i)(right|bottom)[\s]+(/\*.*?\*/\s*)?[-+]?[0-9.]+e-[0-9]+%`)
-	reQuotedKw   = regexp.MustCompile(`(?i)["'](inherit|initial|unset|revert|revert-layer|default|serif|sans-serif|monospace|cursive|fantasy|system-ui|ui-serif|ui-sans-serif|ui-monospace|ui-rounded|emoji|math|fangsong)["']`)
-	reExpNumber  = regexp.MustCompile(`[0-9.][eE][-+]?[0-9]`)
-	reHslNumbers = regexp.MustCompile(`(?i)hsla?\(\s*[-+0-9.a-z]+\s+[-+]?[0-9.]+\s+[-+]?[0-9.]+\s*(/|\))`)
-	reAngleZero  = regexp.MustCompile(`(?i)(^|[^0-9a-z.#_-])[-+]?(0*\.?0+|0+\.?0*)(e[-+]?[0-9]+)?(deg|rad|grad|turn)\b`)
-	reAll9       = regexp.MustCompile(`(^|[^0-9.])0*\.?0*9`)
-	reSFlag      = regexp.MustCompile(`(?i)\ss\s*\]`)
-	reSlashStar  = regexp.MustCompile(`/\s+\*`)
-	rePlusGlue   = regexp.MustCompile(`\([^)]*[0-9a-zA-Z%]\+[0-9.]`)
-	reDashFamily = regexp.MustCompile(`\s-[A-Za-z][A-Za-z0-9-]*\s+[A-Za-z]`)
+	reRightPct      = regexp.MustCompile(`(?i)right[\s]+(/\*.*?\*/\s*)?[-+]?[0-9.]+(e[-+]?[0-9]+)?%`)
+	reBottomPct     = regexp.MustCompile(`(?i)bottom[\s]+(/\*.*?\*/\s*)?[-+]?[0-9.]+(e[-+]?[0-9]+)?%`)
+	reFarFracPct    = regexp.MustCompile(`(?i)(right|bottom)[\s]+(/\*.*?\*/\s*)?[-+]?[0-9]*\.[0-9]*[1-9][0-9]*(e[-+]?[0-9]+)?%`)
+	reFarExpPct     = regexp.MustCompile(`(?i)(right|bottom)[\s]+(/\*.*?\*/\s*)?[-+]?[0-9.]+e-[0-9]+%`)
+	reQuotedKw      = regexp.MustCompile(`(?i)["'](inherit|initial|unset|revert|revert-layer|default|serif|sans-serif|monospace|cursive|fantasy|system-ui|ui-serif|ui-sans-serif|ui-monospace|ui-rounded|emoji|math|fangsong)["']`)
+	reExpNumber     = regexp.MustCompile(`[0-9.][eE][-+]?[0-9]`)
+	reHslNumbers    = regexp.MustCompile(`(?i)hsla?\(\s*[-+0-9.a-z]+\s+[-+]?[0-9.]+\s+[-+]?[0-9.]+\s*(/|\))`)
+	reAngleZero     = regexp.MustCompile(`(?i)(^|[^0-9a-z.#_-])[-+]?(0*\.?0+|0+\.?0*)(e[-+]?[0-9]+)?(deg|rad|grad|turn)\b`)
+	reAll9          = regexp.MustCompile(`(^|[^0-9.])0*\.?0*9`)
+	reSFlag         = regexp.MustCompile(`(?i)\ss\s*\]`)
+	reSlashStar     = regexp.MustCompile(`/\s+\*`)
+	rePlusGlue      = regexp.MustCompile(`\([^)]*[0-9a-zA-Z%]\+[0-9.]`)
+	reHexEscComment = regexp.MustCompile(`\\[0-9a-fA-F]{1,6}/\*`)
+	reCommentGlue   = regexp.MustCompile(`[A-Za-z0-9_%-]/\*.*?\*/[A-Za-z0-9_#.-]`)
+	reDanglingDot   = regexp.MustCompile(`[0-9]\.([^0-9]|$)`)
+	reTwoValueSize  = regexp.MustCompile(`(?i)/\s*[-+]?[0-9.]+(e[-+]?[0-9]+)?[a-z%]*\s+[-+]?[0-9.]+(e[-+]?[0-9]+)?[a-z%]*`)
+	reNewMath       = regexp.MustCompile(`(?i)(^|[^a-z-])(hypot|abs|sign|mod|rem|round|sin|cos|tan|asin|acos|atan|atan2|pow|sqrt|log|exp)\(`)
+	reDashFamily    = regexp.MustCompile(`\s-[A-Za-z][A-Za-z0-9-]*\s+[A-Za-z]`)
 )
 
 func classify(f *Finding, input string, cfg Config) {
+	if reHexEscComment.MatchString(f.InPart) && (strings.Contains(f.Sig, "ident:") || strings.Contains(f.Sig, "tokens-") || strings.Contains(f.Sig, "fusion:")) {
+		f.ID = "N20"
+		return
+	}
 	rawIn := f.InPart
 	in := stripComments(f.InPart)
 	low := strings.ToLower(in)
@@ -38,11 +47,11 @@ func classify(f *Finding, input string, cfg Config) {
 		f.ID = "K22"
 	case strings.HasPrefix(sig, "selector:") && reSFlag.MatchString(in):
 		f.ID = "N05"
-	case has("fusion:") && (strings.Contains(rawIn, "/**/") || strings.Contains(input, "/*")) && (f.Kind == "selector" || strings.HasPrefix(sig, "opaque-block:") || strings.HasPrefix(sig, "junk:") || strings.HasPrefix(sig, "custom-property:")):
+	case has("fusion:") && reCommentGlue.MatchString(rawIn) && (f.Kind == "selector" || strings.HasPrefix(sig, "opaque-block:") || strings.HasPrefix(sig, "junk:") || strings.HasPrefix(sig, "custom-property:")):
 		f.ID = "N06"
-	case oddUnit(in) && (has("number:") || has("tokens-") || has("zero-unit") || has("output-not-in-grammar") || has("fusion:")):
+	case f.Family != "unicode-range" && oddUnit(in) && (has("number:") || has("tokens-") || has("zero-unit") || has("output-not-in-grammar") || has("fusion:")):
 		f.ID = "N18"
-	case rePlusGlue.MatchString(in) && (has("number:") || has("fusion:") || has("tokens-")):
+	case f.Kind == "decl" && rePlusGlue.MatchString(in) && (has("number:") || has("fusion:") || has("tokens-")):
 		f.ID = "N19"
 	case strings.Contains(low, "lightslateblue"):
 		f.ID = "K21"
@@ -50,15 +59,17 @@ func classify(f *Finding, input string, cfg Config) {
 		f.ID = "N15"
 	case cfg.Keep && hasExponentNumber(Tokenize(preprocess(in))) && (has("number:") || has("fusion:") || has("tokens-") || has("output-not-in-grammar") || has("zero-unit") || has("unit-changed")):
 		f.ID = "N01"
-	case cfg.Keep && cfg.Prec > 0 && reAll9.MatchString(in) && (has("number:") || has("tokens-") || has("fusion:") || has("output-not-in-grammar")):
+	case cfg.Keep && cfg.Prec > 0 && reAll9.MatchString(in) && reDanglingDot.MatchString(f.OutPart) && (has("number:") || has("tokens-") || has("fusion:") || has("output-not-in-grammar")):
 		f.ID = "K29"
 	case (f.Family == "bgpos" || f.Family == "background") && reRightPct.MatchString(in) && reBottomPct.MatchString(in):
 		f.ID = "K20"
 	case (f.Family == "bgpos" || f.Family == "background") && farPctNotPlainInt(in):
 		f.ID = "N03"
-	case f.Family == "bgpos" && strings.Contains(in, ","):
+	case reNewMath.MatchString(in) && (has("output-not-in-grammar") || has("zero-unit-dropped:length") || has("tokens-")):
+		f.ID = "N13"
+	case f.Family == "bgpos" && laterLayerHas3(in):
 		f.ID = "N16"
-	case f.Family == "background" && strings.Contains(in, "/") && (has("width:") || has("height:") || has("size:") || has("output-not-in-grammar")):
+	case f.Family == "background" && reTwoValueSize.MatchString(in) && (has("width:") || has("height:") || has("size:") || has("output-not-in-grammar")):
 		f.ID = "N14"
 	case has("zero-unit-dropped:length"):
 		f.ID = "N13"
@@ -78,6 +89,10 @@ func classify(f *Finding, input string, cfg Config) {
 		f.ID = "N09"
 	case reSlashStar.MatchString(in) && (has("tokens-") || has("fusion:") || has("important:")):
 		f.ID = "N10"
+	case f.Kind == "structure" && reSlashStar.MatchString(stripComments(input)):
+		f.ID = "N10"
+	case has("important:") && strings.Contains(low, "data:") && payloadHasQuote(in):
+		f.ID = "N07"
 	case has("datauri:") || has("url:") || has("string:") || has("tokens-") || has("output-not-in-grammar"):
 		if hasDataScheme(urlOf(in)) || strings.Contains(low, "data:") {
 			u := dataPart(in)
@@ -192,6 +207,19 @@ func oddUnit(decl string) bool {
 			if !(c >= 'a' && c <= 'z' || c >= 'A' && c <= 'Z') {
 				return true
 			}
+		}
+	}
+	return false
+}
+
+// laterLayerHas3: a background-position list whose second or later layer uses the 3/4-value syntax.
+func laterLayerHas3(decl string) bool {
+	if i := strings.IndexByte(decl, ':'); i >= 0 {
+		decl = decl[i+1:]
+	}
+	for i, l := range strings.Split(decl, ",") {
+		if i > 0 && len(strings.Fields(l)) >= 3 {
+			return true
 		}
 	}
 	return false
